@@ -242,7 +242,7 @@ pub struct M2ChainSpace {
 }
 impl M2ChainSpace {
     pub fn new() -> Self {
-        M2ChainSpace { models: crate::enum_models(1) }
+        M2ChainSpace { models: crate::enum_models(2) }
     }
     fn radices(&self) -> [u64; 6] {
         [5, 5, 5, 2, 2, self.models.len() as u64]
